@@ -164,6 +164,7 @@ func specCompletePath() seqmc.Spec {
 		po, so     string
 		pe, se     []elemSpec
 		penc, senc string
+		pt, st     string // targets carried by the prefix / by the path: never part of the result
 	}
 	es := [][]elemSpec{{}, {{"a", nil}}, {{"a", []string{"k2", "k1"}}, {"b", nil}}}
 	ss := [][]elemSpec{{}, {{"c", nil}}, {{"c", []string{"k1"}}, {"d", nil}}}
@@ -177,7 +178,9 @@ func specCompletePath() seqmc.Spec {
 					// elements all the same
 					for _, penc := range []string{"elem", "element", "both"} {
 						for _, senc := range []string{"elem", "element", "both"} {
-							cases = append(cases, cp{po, so, pe, se, penc, senc})
+							for _, tg := range [][2]string{{"", ""}, {"dev", ""}, {"dev", "dev"}, {"", "dev"}} {
+								cases = append(cases, cp{po, so, pe, se, penc, senc, tg[0], tg[1]})
+							}
 						}
 					}
 				}
@@ -186,8 +189,8 @@ func specCompletePath() seqmc.Spec {
 	}
 	return seqmc.Spec{Name: "CompletePath: prefix/path origin x element combinations", N: len(cases), Run: func(i int) (string, bool, []seqmc.Violation) {
 		c := cases[i]
-		pp, pidx := tsCase{elems: c.pe, enc: c.penc, origin: c.po}.build()
-		sp, sidx := tsCase{elems: c.se, enc: c.senc, origin: c.so}.build()
+		pp, pidx := tsCase{elems: c.pe, enc: c.penc, origin: c.po, target: c.pt}.build()
+		sp, sidx := tsCase{elems: c.se, enc: c.senc, origin: c.so, target: c.st}.build()
 		desc := fmt.Sprintf("%+v", c)
 		got, err := path.CompletePath(pp, sp)
 		wantErr := c.po != "" && c.so != "" || c.so != "" && len(pidx) > 0
